@@ -50,6 +50,11 @@ def check_one(arg):
         for s, l in zip(st, j1):
             sq = U.squash(l)
             # type and kind selectors of declarations are normalised by design (REAL(8) -> REAL(KIND=8)): not expressions
+            if s.feat in ("save", "data"):
+                # attribute statements without expressions: the whole statement is carried over (the optional '::' aside)
+                if U.squash(s.text).replace("::", "") != sq.replace("::", ""):
+                    fails.append(("statement_text_changed:" + s.feat, "%r regenerated as %r" % (s.text, l),
+                                  dict(rep, regenerated=s1)))
             for ch in ([] if s.feat in DECL_FEATS else U.expr_chunks(s.text)):
                 if ch not in sq:
                     fails.append(("expression_text_changed:" + s.feat, "%r regenerated as %r" % (s.text, l),
